@@ -406,6 +406,11 @@ class Run:
 
     def finish(self):
         self.cov['distinct_nontrivial'] = len(self.distinct)
+        # EVIDENCE.schema.json: `exhaustive` is a boolean about the WHOLE run; a description of an exhaustively enumerated
+        # sub-stream goes to `exhaustive_scope`
+        if not isinstance(self.cov.get('exhaustive', False), bool):
+            self.cov['exhaustive_scope'] = self.cov['exhaustive']
+            self.cov['exhaustive'] = False
         ev = {'property_id': self.prop, 'tier': self.tier, 'seed': self.seed, 'level': self.level,
               'coverage': self.cov, 'assumptions': self.assumptions,
               'wall_s': round(time.time() - self.t0, 1), 'violations': len(self.violations)}
